@@ -79,8 +79,8 @@ Theorem C24_cell_types :
 Proof. exact cell_types. Qed.
 Print Assumptions C24_cell_types.
 
-(* what [canonical] changes is exactly: #N/IMPL! -> #ERROR! (F01), a colliding text (F17), and the
-   origin / message of an error value (not stored in the file). Otherwise the cell comes back as is: *)
+(* what [canonical] changes is exactly: a colliding text (F17) and the origin / message of an error
+   value (not stored in the file). Otherwise the cell comes back as is: *)
 Theorem C24_cell_types_exact :
   forall (num : Type) (show_num : num -> text) (read_num : text -> num) (formula : Type),
   (forall n, read_num (show_num n) = n) ->
@@ -99,12 +99,13 @@ Theorem C24_cell_unevaluated_refuted :
 Proof. exact unevaluated_panics. Qed.
 Print Assumptions C24_cell_unevaluated_refuted.
 
-Theorem C24_cell_nimpl_refuted :
+(* #N/IMPL! is kept (F01 repaired in /repo 4a681a0; it used to come back as #ERROR!) *)
+Theorem C24_cell_nimpl_kept :
   forall (num : Type) (show_num : num -> text) (read_num : text -> num) (formula : Type) here s,
   exists x, enc_cell num show_num formula (CErr num formula Names.E_NIMPL s) = Ok x /\
-            dec_cell num read_num formula None here x = CErr num formula Names.E_ERROR s.
-Proof. exact nimpl_lost. Qed.
-Print Assumptions C24_cell_nimpl_refuted.
+            dec_cell num read_num formula None here x = CErr num formula Names.E_NIMPL s.
+Proof. exact nimpl_kept. Qed.
+Print Assumptions C24_cell_nimpl_kept.
 
 Theorem C24_cell_error_origin_refuted :
   forall (num : Type) (show_num : num -> text) (read_num : text -> num) (formula : Type) here f s o m,
